@@ -86,7 +86,8 @@ def gen(tier, rng):
     for i in range(nb):
         reqs = conv(rng, i)
         stream = b"".join(r.render() for r in reqs)
-        acts = [action_str([(None, 2048)], respond_str(200, body_bytes("a%d" % k, 300), True)) for k in range(len(reqs))]
+        big = rng.chance(1, 3)
+        acts = [action_str([(None, 2048)], respond_str(200, body_bytes("a%d" % k, 70000 if big else 300), not big)) for k in range(len(reqs))]
         for cut in cuts_for(rng, reqs, stream, tier):
             want = expected_delivered(reqs, cut)
             kind = rng.choice(["half", "half", "half", "full", "rst", "unread"])
